@@ -155,10 +155,10 @@ func (x *Ctx) absEvent(e *sgbucket.FeedEvent, absKey func(string) string) Ev {
 	}
 	if len(body) == 0 {
 		// a deletion carries no body; a mutation whose value has length zero carries an empty one
-		if ev.Op == "mut" {
+		if ev.Op == "mut" && (ev.Xf || e.Value != nil) {
 			body = []byte{}
 		} else {
-			body = nil
+			body = nil // (also a keys-only feed's event, whose value is nil)
 		}
 	}
 	x.crc.note(body)
